@@ -1,9 +1,11 @@
+import Driver.C07
 import Driver.C19
 import Driver.Ring
 open Driver
 
 def main (args : List String) : IO UInt32 := do
   match args with
+  | ["C07"] => run C07.handler
   | ["C19"] => run C19.handler
   | ["C04"] => run (Ring.handler "C04")
   | ["C05"] => run (Ring.handler "C05")
